@@ -36,7 +36,7 @@ func c11R4(c *Ctx, r *Report) {
 	// helper chain
 	r.Check(calls(fns["castValue"], "emitCast") && calls(fns["castValue"], "emitLargeCast"), rule, fns["castValue"].Name(), "castValue -> emitCast / emitLargeCast", c.pos(fns["castValue"].Decl.Pos()), "castValue no longer emits a cast for differing types")
 	if fns["widenNumericValue"].Decl != nil {
-	r.Check(calls(fns["widenNumericValue"], "castValue"), rule, fns["widenNumericValue"].Name(), "widenNumericValue -> castValue", c.pos(fns["widenNumericValue"].Decl.Pos()), "the implicit-widening helper no longer converts")
+		r.Check(calls(fns["widenNumericValue"], "castValue"), rule, fns["widenNumericValue"].Name(), "widenNumericValue -> castValue", c.pos(fns["widenNumericValue"].Decl.Pos()), "the implicit-widening helper no longer converts")
 	}
 	r.Check(calls(fns["coerceValueForAssign"], "widenNumericValue") || calls(fns["coerceValueForAssign"], "castValue"), rule, fns["coerceValueForAssign"].Name(), "coerceValueForAssign -> numeric conversion", c.pos(fns["coerceValueForAssign"].Decl.Pos()), "assignment coercion boxes unions and interfaces but leaves a narrower numeric value unconverted: `let c: i64 = a` with a: i32 = -7 reads back 4294967289")
 
